@@ -223,15 +223,15 @@ theorem C10_counts_text_chain_group_partial (valid : Str → Bool) (f : F) (hwf 
 /-- Largest proved fragment of `C10_preprocess_statement` with parentheses: a SEQUENCE of units
     `u₁ ␣* u₂ ␣* … uₙ` (`F.units`, right-nested juxtapositions), each unit a parenthesis-free
     formula (species, counts, any blanks, merged capital runs, explicit ` + `) or a parenthesised
-    parenthesis-free group without or with a count, separated by any number of blanks — also none,
-    except that a parenthesis-free unit directly after a group needs at least one blank:
-    `(OH)2(CH3)3`, `Ca(OH)2 (H2O)6`, `(NH4)2 S O4`, `K4 (Fe (CN)6)`-like nesting excluded.
+    parenthesis-free group without or with a count, separated by any number of blanks — also none:
+    `(OH)2(CH3)3`, `Ca(OH)2 (H2O)6`, `(NH4)2SO4`, `(CH3)3COH`; `K4 (Fe (CN)6)`-like nesting excluded.
     All four passes on the whole text: pass 1 as a counted sequence of single substitutions, unit
     by unit from the left, never across a parenthesis; pass 2 per unit; pass 3 rewrites `X␣*(` and
     `)n␣*(` into `… + (`, and nothing else (its look-ahead from inside a group's last word runs over
-    `)n` and the blanks); pass 4 rewrites `)n + (` into `) * n + (` and `)n␣⁺X` into `) * n + X`
-    (its look-ahead run `[^+*)\s]*` ends inside the next unit).
-    Still missing for the full statement: nested groups, `)nX` without a blank, an explicit ` + `
+    `)n` and the blanks, and for `)nX` the look-behind word spans `)n` and the first species of
+    `X`); pass 4 rewrites `)n + (` into `) * n + (` and `)n␣*X` into `) * n + X` (its look-ahead
+    run `[^+*)\s]*` ends inside the next unit).
+    Still missing for the full statement: nested groups, an explicit ` + `
     directly next to a parenthesis, a trailing explicit ` * n`, left-nested ASTs of the same text. -/
 theorem C10_preprocess_units_partial (f : F) (hf : f.units) (hs : f.spAll SpeciesShape) :
     preprocess (render f) = renderExplicit f :=
@@ -428,7 +428,7 @@ example : exChainGroup.spAll (fun s => SpeciesShape s ∧ (fun _ => true) s = tr
     ⟨one 'S' (by decide), rfl⟩, ⟨one 'O' (by decide), rfl⟩⟩
 /-- the hypotheses of the units theorems are satisfiable: `exF` = `(OH)2(CH3)3`, and
     `Ca(OH)2 (H2O)6 Cl` ↦ Ca O8 H14 Cl -/
-example : exF.units := Or.inr ⟨Or.inr ⟨trivial, trivial⟩, Or.inr ⟨trivial, trivial⟩, by decide, by decide⟩
+example : exF.units := Or.inr ⟨Or.inr ⟨trivial, trivial⟩, Or.inr ⟨trivial, trivial⟩, by decide⟩
 def exUnits : F :=
   .seq 0 (.sp ['C', 'a'])
     (.seq 1 (.count (.group (.seq 0 (.sp ['O']) (.sp ['H']))) 2)
@@ -440,9 +440,20 @@ example : exUnits.wf = true ∧ exUnits.units ∧
   ⟨by decide,
    Or.inr ⟨Or.inl trivial,
      Or.inr ⟨Or.inr ⟨trivial, trivial⟩,
-       Or.inr ⟨Or.inr ⟨trivial, trivial⟩, Or.inl trivial, by decide, by decide⟩, by decide, by decide⟩,
-     by decide, by decide⟩,
+       Or.inr ⟨Or.inr ⟨trivial, trivial⟩, Or.inl trivial, by decide⟩, by decide⟩,
+     by decide⟩,
    by decide +kernel, by decide +kernel, by decide +kernel⟩
+/-- `(NH4)2SO4`: a parenthesis-free unit directly after `)n`, capitals merging into the run `SO` -/
+def exAmm : F :=
+  .seq 0 (.count (.group (.seq 0 (.sp ['N']) (.count (.sp ['H']) 4))) 2)
+    (.seq 0 (.sp ['S']) (.count (.sp ['O']) 4))
+example : exAmm.wf = true ∧ exAmm.units ∧ String.ofList (render exAmm) = "(NH4)2SO4" ∧
+    String.ofList (renderExplicit exAmm) = "(N + H * 4) * 2 + S + O * 4" ∧
+    expand exAmm = [(['N'], 2), (['H'], 8), (['S'], 1), (['O'], 4)] :=
+  ⟨by decide, Or.inr ⟨Or.inr ⟨trivial, trivial⟩, Or.inl ⟨trivial, trivial⟩, by decide⟩,
+   by decide +kernel, by decide +kernel, by decide +kernel⟩
+example : substanceOf (fun _ => true) (render exAmm) =
+    some [(['N'], 2), (['H'], 8), (['S'], 1), (['O'], 4)] := by decide +kernel
 /-- … and evaluating the model pipeline on that text gives the same as the theorem says -/
 example : substanceOf (fun _ => true) (render exUnits) =
     some [(['C', 'a'], 1), (['O'], 8), (['H'], 14), (['C', 'l'], 1)] := by decide +kernel
